@@ -13,6 +13,18 @@ CLAIMS = {
         "note": K_NOTE + " Rust's documented contract of i64::checked_div/checked_rem_euclid/wrapping_rem_euclid/checked_pow.",
     },
 }
+CLAIMS["C38"] = {
+    "engine": "M", "level": "model_checking",
+    "technique": "symbolic execution of the nightly MIR of Arena::alloc<T> into 64-bit bit-vectors; obligations decided by z3, cross-checked by cvc5; Miri replay",
+    "text": "The MIR of the generic Arena::alloc<T>, re-dumped from the current source on every run, is executed symbolically; for every "
+            "pre-state satisfying the arena invariant and every (size, align) Rust permits (within the stated bounds) z3 decides that no "
+            "arithmetic check fails, the pointer arithmetic and the write stay inside the buffer that is current after the call, the write is "
+            "aligned on the actual address, does not overlap earlier allocations, and the invariant is re-established -- one inductive step that "
+            "covers allocation sequences of any length. A violated obligation is re-solved for a small pre-state, turned into a concrete "
+            "with_capacity/alloc sequence and run under Miri; VIOLATION only if Miri reports UB or the replay's assertions fail.",
+    "note": "Trusted: the summaries of 12 library calls listed in the evidence; nightly MIR == stable semantics for this function; Rust layout rules. "
+            "Bounds: offset <= len < 2^48, size < 2^40, align <= 4096. Sequences are covered only through the invariant.",
+}
 NOT_APPLICABLE = {
     "C03": "quantifies over programs only; the failing behaviour is a panic inside the translator for a program shape. The program cannot be made symbolic through the parser/resolver/type checker (one hash-map insert = 1.7 M SAT variables, measured).",
     "C20": "decided entirely inside the resolver/type checker for a given program; no value-level quantifier for a solver to discharge.",
